@@ -147,6 +147,16 @@ CHECKS["C04"] = dict(
     design_ref="DESIGN.md section 4, C04",
     note="Trusted: AM (bound by C06); boundedness per call is argued from determinism + no repeat; forced contexts are a menu. One open known finding (KF9: cycles through action override targets) is matched on the machine-level cycle.")
 
+CHECKS["C13"] = dict(
+    category="model_checking",
+    technique="each macro program emitted twice from one AST (with macros / inlined by our own substitution); verdict equality and exhaustive bisimulation without slack of the two compiled machines; exhaustive kind x kind error menu",
+    text="Macro shapes covering every argument kind (out, match, expr, hook, loop, finishcode, yieldcode, macro), arguments used several times and inside concatenations / conditions / appends, nested calls passing every "
+         "kind through, callee argument names shadowing the caller's, break targets passed in and captured from the call site, zero-argument macros called repeatedly, x menus of match and expression arguments x surrounding "
+         "statements are printed both with macros and hand-inlined; verdicts must agree and for accepted pairs the joint state space of both machines is explored completely with no slack. All 8 parameter kinds x 10 wrong argument "
+         "kinds, wrong arities, recursion, undefined callee and duplicate parameters must be diagnosed errors.",
+    design_ref="DESIGN.md section 4, C13",
+    note="Trusted: our substitution as the meaning of 'textual expansion'; AM; names the reference leaves undefined are not generated; shapes up to nesting depth 2.")
+
 NOT_YET = {
 }
 
